@@ -143,6 +143,20 @@ func decode(as spoe.Actions) decoded {
 	return d
 }
 
+// snapshotActions renders every value of an encoding (byte slices by content).
+func snapshotActions(as spoe.Actions) string {
+	var b strings.Builder
+	for _, a := range as {
+		switch v := a.Value.(type) {
+		case []byte:
+			fmt.Fprintf(&b, "%s=%q;", a.Name, string(v))
+		default:
+			fmt.Fprintf(&b, "%s=%v;", a.Name, v)
+		}
+	}
+	return b.String()
+}
+
 // parseDump decodes the line-based header block the proxy's Lua side splits on
 // newlines and on the first colon.
 func parseDump(v any) (map[string]string, error) {
@@ -202,7 +216,18 @@ func checkReqOn(seq []spec, in []actions.ReqLunarAction) error {
 			allNoop = false
 		}
 	}
-	enc := decode(res.ReqToSpoeActions())
+	acts := res.ReqToSpoeActions()
+	before := snapshotActions(acts)
+	// the SPOE library writes the reply out after the handler has returned, and other transactions are encoded in
+	// the meantime: the encoding of this one must not change when the next one is produced
+	_ = (&actions.ModifyRequestAction{HeadersToSet: map[string]string{"x-other": "transaction"}, Host: "other.test", Path: "/other", QueryParams: "o=1",
+		Body: strings.Repeat("OTHER-TRANSACTION ", 40)}).ReqToSpoeActions()
+	_ = (&actions.GenerateRequestAction{HeadersToSet: map[string]string{"x-other": "transaction"}, Body: strings.Repeat("other-transaction ", 300)}).ReqToSpoeActions()
+	_ = (&actions.EarlyResponseAction{Status: 599, Body: strings.Repeat("OTHER ", 100), Headers: map[string]string{"x-other": "transaction"}}).ReqToSpoeActions()
+	if after := snapshotActions(acts); after != before {
+		return fmt.Errorf("the encoding handed to the proxy changed when another transaction was encoded after it: before %.200q, after %.200q", before, after)
+	}
+	enc := decode(acts)
 	if enc.dup != "" {
 		return fmt.Errorf("encoding sets %q twice / unexpected action", enc.dup)
 	}
@@ -435,7 +460,14 @@ func checkRespOn(seq []spec, in []actions.RespLunarAction) error {
 		}
 	}
 	// encoding
-	enc := decode(res.RespToSpoeActions())
+	racts := res.RespToSpoeActions()
+	rbefore := snapshotActions(racts)
+	_ = (&actions.ModifyResponseAction{HeadersToSet: map[string]string{"x-other": "transaction"}, Body: strings.Repeat("OTHER-TRANSACTION ", 40), Status: 599}).RespToSpoeActions()
+	_ = (&actions.RetryRequestAction{HeadersToSet: map[string]string{"x-other": "transaction"}}).RespToSpoeActions()
+	if rafter := snapshotActions(racts); rafter != rbefore {
+		return fmt.Errorf("the encoding handed to the proxy changed when another transaction was encoded after it: before %.200q, after %.200q", rbefore, rafter)
+	}
+	enc := decode(racts)
 	if enc.dup != "" {
 		return fmt.Errorf("encoding sets %q twice / unexpected action", enc.dup)
 	}
